@@ -75,9 +75,13 @@ pub enum LStep {
     /// append one entry at the next index; `kind`: 0 normal(pad), 1 blank, 2 config-change
     Append { pad: usize, kind: u8, term_up: bool },
     /// follower path: replicate a batch
-    Replicate { pads: Vec<usize>, term_up: bool },
+    /// `term_step`: every entry of the batch has its own term (a follower catching up across several short leaderships),
+    /// so that wherever a log-file roll-over falls inside the batch the term changes there
+    Replicate { pads: Vec<usize>, term_up: bool, #[serde(default)] term_step: bool },
     /// conflict truncation: delete from `last+1-back` (back==0: beyond the end)
-    DeleteFrom { back: u64 },
+    /// `file_start`: cut at the first index of the newest log file (when the log spans several files), which leaves an
+    /// empty tail file behind
+    DeleteFrom { back: u64, #[serde(default)] file_start: bool },
     HardState { term_up: u64, vote: u64 },
     Member { members: Vec<u64>, after: Vec<u64>, addr_len: usize },
     NodeAddr { id: u64, addr_len: usize },
@@ -379,7 +383,7 @@ impl LExec {
                     }
                 }
             }
-            LStep::Replicate { pads, term_up } => {
+            LStep::Replicate { pads, term_up, term_step } => {
                 if *term_up {
                     self.m.term += 1;
                 }
@@ -387,8 +391,14 @@ impl LExec {
                 let first = self.m.next;
                 for (i, pad) in pads.iter().enumerate() {
                     self.uniq += 1;
+                    if *term_step && i > 0 {
+                        self.m.term += 1;
+                    }
                     let payload = mk_payload(self.uniq, *pad, 0);
                     batch.push(Entry { index: first + i as u64, term: self.m.term, payload });
+                }
+                if *term_step {
+                    self.probe("batch_with_a_term_per_entry");
                 }
                 for e in &batch {
                     self.record_alignment_probe(e);
@@ -417,12 +427,24 @@ impl LExec {
                     }
                 }
             }
-            LStep::DeleteFrom { back } => {
+            LStep::DeleteFrom { back, file_start } => {
                 if !self.m.started {
                     return Ok(());
                 }
                 let last = self.m.next - 1;
-                let k = if *back == 0 { self.m.next + 1 } else { (last + 1).saturating_sub(*back).max(self.m.low.max(1)) };
+                let mut k = if *back == 0 { self.m.next + 1 } else { (last + 1).saturating_sub(*back).max(self.m.low.max(1)) };
+                if *file_start {
+                    if let Ok(Ok(RaftIndexResponse::RaftIndexInfo { raft_index, .. })) = self.h.as_ref().unwrap().im.send(RaftIndexRequest::LoadIndexInfo).await {
+                        if raft_index.logs.len() > 1 {
+                            if let Some(lr) = raft_index.logs.last() {
+                                if lr.start_index > self.m.low && lr.start_index <= last {
+                                    k = lr.start_index;
+                                    self.probe("truncate_at_first_index_of_newest_file");
+                                }
+                            }
+                        }
+                    }
+                }
                 // async-raft never truncates at or below the compaction pointer
                 if k <= self.m.low && self.m.low > 0 {
                     return Ok(());
@@ -1456,6 +1478,11 @@ async fn recover_and_check(root: &str, prefix: &str, img: &tokio::fs::Image, pre
         Some(Err(e)) => vfail!(&clause(id, "snapshot_unreadable"), "{}: get_current_snapshot: {}", what, e),
         None => vfail!(&clause(id, "reopen_hang"), "{}: get_current_snapshot does not answer", what),
     };
+    // a snapshot completed before the interrupted step is still there (that one, or the one the step was completing)
+    // (not while an installation is interrupted: the script may install a snapshot below the current one, which replaces it)
+    if let (Some((sid, at)), false) = (prev.snapshots.last(), what.contains("install_pointer")) {
+        vensure!(snap_idx >= *at, &clause(id, "snapshot_lost"), "{}: snapshot {} (up to index {}) was complete and catalogued before the interrupted step, but the recovered store has {}", what, sid, at, if snap_idx == 0 { "no current snapshot".to_string() } else { format!("a current snapshot up to index {}", snap_idx) });
+    }
     let reach = snap_idx.max(got.last().map(|e| e.index).unwrap_or(0));
     vensure!(st.last_applied_log <= reach, &clause(id, "applied_beyond_log"), "{}: last applied index {} but snapshot ({}) plus log (..{:?}) reproduce at most {}", what, st.last_applied_log, snap_idx, got.last().map(|e| e.index), reach);
     // (7) accepts a further append and a second reopen
